@@ -133,12 +133,12 @@ pub fn forged_value(version: u32, key_len: usize, head_sector: u64, blocks: usiz
                 u64::MAX - 7,
                 0,
             ),
-            1 => codec::encode_retirement(sector, 1 + (salt % 3), true)[..codec::BLOCK].to_vec(),
+            1 => codec::encode_retirement_block(sector, 1 + (salt % 3), true),
             _ => {
                 if version < 3 {
                     codec::encode_legacy_marker()
                 } else {
-                    codec::encode_retirement(sector, 1_000_000, true)[..codec::BLOCK].to_vec()
+                    codec::encode_retirement_block(sector, 1_000_000, true)
                 }
             }
         };
